@@ -127,10 +127,24 @@ def series_terms(i, o):
         f = i["fish"]
         t.append(("fish", f"series_code {TOL} (fish_series {cbool(f['add'])} {N} {fq(f['annual'])} {fq(f['wd'])} {fq(f['wr'])} "
                           f"{fql(f['pct'])}) {fql(o['fish'])}"))
+        for nu in ("fat", "protein"):
+            if "fish_" + nu in o:
+                t.append(("fish_" + nu, f"series_code {TOL} (fish_nutrient_series {cbool(f['add'])} {N} {fq(f[nu + '_annual'])} "
+                                        f"{fq(f['wd'])} {fq(f['wr'])} {fql(f['pct'])}) {fql(o['fish_' + nu])}"))
     for nm in ("feed", "biofuel"):
         if nm in o:
             d = i[nm]
             t.append((nm, f"series_code {TOL} (demand_series {N} {cnat(d['dur'])} {fq(d['per_year'])}) {fql(o[nm])}"))
+            for nu in ("fat", "protein"):
+                if f"{nm}_{nu}" in o:
+                    t.append((f"{nm}_{nu}", f"series_code {TOL} (demand_nutrient_series {N} {cnat(d['dur'])} {fq(d[nu])}) "
+                                            f"{fql(o[nm + '_' + nu])}"))
+    # SCP / CS fat and protein: the model maps the OBSERVED kcal series (already tied above) through the conversion
+    for nu, conv in (("fat", "scp_fat_conversion"), ("protein", "scp_protein_conversion")):
+        if "scp_" + nu in o and "scp" in o:
+            t.append(("scp_" + nu, f"series_code {TOL} (scp_nutrient {conv} {fql(o['scp'])}) {fql(o['scp_' + nu])}"))
+        if "cs_" + nu in o and "cs" in o:
+            t.append(("cs_" + nu, f"series_code {TOL} (cs_nutrient {fql(o['cs'])}) {fql(o['cs_' + nu])}"))
     if "grass" in o:
         g = i["grass"]
         t.append(("grass", f"series_code {TOL} (grass_series {N} {fq(g['baseline'])} {fql(g['ratios'])}) {fql(o['grass'])}"))
@@ -235,7 +249,7 @@ def correspondence(ctx):
             key = "scp" if nm == "scp_spec" else nm
             if nm != "scp_spec":
                 dist["series"][nm] = dist["series"].get(nm, 0) + 1
-                src = r["inputs"].get(key, r["inputs"]["seaweed"])
+                src = r["inputs"].get(key.split("_")[0] if key.split("_")[-1] in ("fat", "protein") else key, r["inputs"]["seaweed"])
                 ctx.count((nm, json.dumps(src, sort_keys=True), r["inputs"]["N"]), nontrivial=any(v != 0 for v in r["obs"][key]))
         if r.get("crops"):
             terms.append(c09.crop_term(r["crops"]))
